@@ -43,7 +43,7 @@ POL = ('target_pch_out_db', 'target_psd_out_mWperGHz', 'target_out_mWperSlotWidt
 
 
 def plan(tier, seed):
-    n = 120 if tier == 'quick' else 8000
+    n = 240 if tier == 'quick' else 8000
     kinds = ['topology', 'topology', 'equipment', 'services', 'topology', 'spectrum', 'sim', 'alias']
     return [{'idx': i, 'kind': kinds[i % len(kinds)]} for i in range(n)]
 
